@@ -3,6 +3,7 @@ import ScyllaVerif.Model.MergeChannel
 import ScyllaVerif.Model.MetaUpdate
 import ScyllaVerif.Model.ClusterConsumer
 import ScyllaVerif.Model.RefreshFlow
+import ScyllaVerif.Model.C19Establish
 /-! Line-protocol driver for C19.
 
 * `chan <op>;<op>;…` — the merge channel at poll granularity. Producer: `m<x>` merge, `D` drop sender.
@@ -255,15 +256,9 @@ def newPool (st : WorkerSt) (addr : Nat) : C19PoolInit.Pool :=
   | some .handshakes => C19PoolInit.run {} [.startFilling 1, .connOkAccept]
   | some .mute => C19PoolInit.run {} [.startFilling 1]                      -- still in flight
 
-/-- The pools of the state built from topology `t`: kept for an enabled node that stays enabled with the same dc / rack,
-new otherwise. -/
+/-- `ClusterConsumer.poolsFor` with the case's listeners deciding the first attempt of a brand-new pool. -/
 def poolsFor (st : WorkerSt) (t : Topo) : List (Nat × Nat × Nat × C19PoolInit.Pool) :=
-  t.nodes.filterMap fun n =>
-    if accepts st.pipe.cons.filter n then
-      match st.pools.find? (fun p => p.1 == n.host) with
-      | some (h, d, r, pool) => if d == n.dc && r == n.rack then some (h, d, r, pool) else some (n.host, n.dc, n.rack, newPool st n.addr)
-      | none => some (n.host, n.dc, n.rack, newPool st n.addr)
-    else none
+  ClusterConsumer.poolsFor st.pipe.cons.filter st.pools (newPool st) t
 
 /-- The consumer takes the slot: `apply_metadata_update`, including its wait on the pools of the new state's enabled
 nodes. `none` = parked at `wait_until_all_pools_are_initialized` (a pool is still `Initializing`). -/
@@ -457,15 +452,60 @@ def runProducer (ops : List String) : String :=
 
 end Producer
 
+/-! ### estab: re-establishment over several candidates (checker: the candidate order is the driver's random shuffle) -/
+section Estab
+open ScyllaVerif.C19Establish
+
+/-- `estab <o0><o1><o2> <rej> <f>`; `impl` = `order=<nodes whose fetch was seen> took=… ok=… err=… drop=…`. The model
+replays `try_establish_on_nodes` over the candidates IN THE OBSERVED ORDER (refused candidates are invisible and do not
+matter: `connectFail` only moves on) and echoes the line iff order and outcome are producible. -/
+def runEstab (script rej f impl : String) : String :=
+  let cs := script.toList
+  if cs.length != 3 || !cs.all (fun c => c == 'o' || c == 'e' || c == 'x') || !(f == "o" || f == "e") then "bad-case" else
+  let rejN : Option Nat := if rej == "-" then none else rej.toNat?
+  if rej != "-" && (rejN.isNone || rejN.getD 9 > 2) then "bad-case" else
+  let outcomeOf (i : Nat) : Outcome :=
+    match cs[i]? with
+    | some 'o' => .fetched (i + 1) (rejN == some i)
+    | some 'e' => .fetchFail
+    | _ => .connectFail
+  let orderStr := ((impl.splitOn " ").head?.getD "").drop 6
+  match (if orderStr.toString == "-" then some [] else (orderStr.toString.splitOn ",").mapM String.toNat?) with
+  | none => "REJECT unparsable order"
+  | some l =>
+    -- the contact-point attempt: node 0 seen a second time, at the end
+    let (phase1, fallbackSeen) :=
+      if l.length ≥ 2 && l.getLast? == some 0 && (l.dropLast).contains 0 then (l.dropLast, true) else (l, false)
+    let nonX := (List.range 3).filter fun i => cs[i]? != some 'x'
+    if !(phase1.all (fun i => nonX.contains i)) || phase1.eraseDups.length != phase1.length then "REJECT order names a stopped or repeated node" else
+    let r1 := tryOnNodes false (phase1.map outcomeOf) none
+    let complete := match r1 with
+      | .kept m => phase1.getLast?.map (· + 1) == some m
+      | _ => nonX.all (fun i => phase1.contains i)
+    if !complete then "REJECT the search stopped early or went on after keeping a connection" else
+    let wantFallback := r1 == .err && cs[0]? != some 'x'
+    if wantFallback != fallbackSeen then "REJECT contact-point fallback" else
+    let result := if r1 == .err then
+        (if cs[0]? == some 'x' then Result.err
+         else tryOnNodes false [if f == "o" then .fetched 9 false else .fetchFail] none)
+      else r1
+    let orderOut := if l.isEmpty then "-" else ",".intercalate (l.map toString)
+    match result.metadata with
+    | some _ => s!"order={orderOut} took=full/1 ok=0 err=- drop=-"
+    | none => s!"order={orderOut} took=- ok=- err=0 drop=-"
+
+end Estab
+
 def opsOf (body : String) : List String := (body.splitOn ";").filter (· ≠ "")
 
-def run (case _impl : String) : String :=
+def run (case impl : String) : String :=
   match words case with
   | ["chan", body] => runChan (opsOf body)
   | ["chan"] => runChan []
   | ["slot", body] => runSlot (opsOf body)
   | ["slot"] => runSlot []
   | ["producer", body] => runProducer (opsOf body)
+  | ["estab", script, rej, f] => runEstab script rej f impl
   | ["worker", body] => runWorker (opsOf body)
   | ["worker"] => runWorker []
   | ["stress", n, _mode, _seed] =>
